@@ -118,3 +118,37 @@ def h_status_reply(status, code, text):
     if status == "NO":
         prove(c.errcode == exp_code, "S2.errcode-is-the-response-code")
         prove(c.errmsg == exp_msg, "S2.errmsg-is-the-text")
+
+
+def h_parse_error(code):
+    """__parse_error on the text part of a NO line: [ "(" CODE ")" SP ] quoted-text, for every response code atom
+    (code = 'none' | 'atom' | 'slashed') and every non-empty text without quote, backslash, CR, LF: errcode / errmsg are the
+    code and the text as sent"""
+    c = new_client()
+    t = sym_bytes("text")
+    assume(in_re(t, re_safe_nonempty()))
+    text = b'"' + t + b'"'
+    exp_code = b""
+    if code == "atom":
+        a = sym_bytes("code_atom")
+        assume(in_re(a, re_atom()))
+        text = b"(" + a + b") " + text
+        exp_code = a
+    elif code == "slashed":
+        a = sym_bytes("code_atom")
+        b = sym_bytes("code_sub")
+        assume(in_re(a, re_atom()))
+        assume(in_re(b, re_atom()))
+        text = b"(" + a + b"/" + b + b") " + text
+        exp_code = a + b"/" + b
+    c.errcode = b"<stale>"
+    c.errmsg = b"<stale>"
+    kind = "return"
+    try:
+        c._Client__parse_error(text)
+    except managesieve.Error:
+        kind = "Error"
+    prove(kind == "return", "S2.text-shape-is-decoded")
+    if kind == "return":
+        prove(c.errcode == exp_code, "S2.errcode-is-the-response-code")
+        prove(c.errmsg == t, "S2.errmsg-is-the-text")
